@@ -12,7 +12,8 @@ def run(ctx: Ctx) -> None:
     from props.respfam import d22_scenarios
     from props import routemodel
     routemodel.run(ctx, 'C03')
-    run_family(ctx, 'C03', 'c03', 400, 12000, d22_scenarios('C03'))
+    from props.respfam import hostless_update_scenarios
+    run_family(ctx, 'C03', 'c03', 400, 12000, d22_scenarios('C03') + hostless_update_scenarios('C03'))
     # the registry on its own: Registry.tla explored by TLC, its histories performed on a real ServiceRegistry, the lookups
     # judged by TLC against RegistryContract.tla (clauses C03_Registry*)
     from props import registrymodel
